@@ -93,7 +93,8 @@ def judge(case):
 
 def case_strategy(thorough):
     ts = gen.type_specs(max_leaves=5 if thorough else 3, lax_ok=False)
-    ts = st.one_of(gen.leaf, gen.constrained(), gen.constrained(), gen.enum_t, gen.literal_t, ts, ts, ts)
+    nums = gen.constrained(origins=["int", "float", "decimal", "decimal"])
+    ts = st.one_of(gen.leaf, gen.constrained(), gen.constrained(), nums, nums, gen.enum_t, gen.literal_t, ts, ts, ts)
 
     def with_value(spec):
         vals = st.one_of(gen.conforming(spec), gen.conforming(spec), gen.hostile(max_leaves=10 if thorough else 6))
